@@ -72,7 +72,7 @@ func New(now time.Time) *PKI {
 	ca, cak, caPEM := mkCA("verif CA", now)
 	fca, fcak, fcaPEM := mkCA("foreign CA", now)
 	nb, na := now.AddDate(-1, 0, 0), now.AddDate(5, 0, 0)
-	ip := []net.IP{net.IPv4(10, 0, 0, 1)}
+	ip := []net.IP{net.IPv4(10, 0, 0, 1), net.IPv4(127, 0, 0, 1)}
 	return &PKI{CA: caPEM, ForeignCA: fcaPEM,
 		Server:    mkLeaf(ca, cak, "server.test", []string{"server.test"}, ip, nb, na, false),
 		WrongHost: mkLeaf(ca, cak, "other.test", []string{"other.test"}, nil, nb, na, false),
